@@ -4,8 +4,11 @@ multiplication-chain tables, scalar constants) from a thermodynamics module's AS
 The module is parsed with `ast`, never imported.  The closed literal sub-language is:
 number literals, unary +/-, binary + - * / on numbers (evaluated in double arithmetic exactly
 as CPython does), names bound earlier at module level, tuple/list literals, tuple
-assignment, `np.array(<list>[, float64])`.  Anything else at module level (other than
-imports, the import try/except, docstrings, `def`s) is refused.
+assignment, `np.array(<list>[, float64])`.  A module-level name bound to anything else (e.g.
+a constant computed by calling one of the module's functions) is recorded as OPAQUE: it is
+refused as soon as a requested table, or a literal expression, depends on it.  Any other
+statement at module level (other than imports, the import try/except, docstrings, `def`s) is
+refused.
 
 Each float is emitted twice: as the exact dyadic rational of the double (Q) and as a hex
 PrimFloat literal."""
@@ -15,6 +18,11 @@ from fractions import Fraction
 
 class Refusal(Exception):
     pass
+
+
+class Opaque:
+    """a module-level name whose value is outside the literal sub-language"""
+    def __init__(self, why): self.why = why
 
 
 class FArray(list):
@@ -66,7 +74,11 @@ class Tables:
         if isinstance(st, ast.Assign):
             if len(st.targets) != 1: self.fail(st, 'chained assignment')
             tgt = st.targets[0]
-            val = self.expr(st.value)
+            try:
+                val = self.expr(st.value)
+            except Refusal as e:
+                if not isinstance(tgt, ast.Name): raise
+                val = Opaque(str(e))          # refused later if anything requested depends on it
             if isinstance(tgt, ast.Name):
                 self.bind(tgt.id, val, st)
             elif isinstance(tgt, ast.Tuple) and all(isinstance(e, ast.Name) for e in tgt.elts):
@@ -104,7 +116,9 @@ class Tables:
             except (ZeroDivisionError, OverflowError) as ex:
                 self.fail(e, 'arithmetic error %r' % ex)
         if isinstance(e, ast.Name):
-            if e.id in self.env: return self.env[e.id]
+            if e.id in self.env:
+                if isinstance(self.env[e.id], Opaque): self.fail(e, 'name %s is not a literal (%s)' % (e.id, self.env[e.id].why))
+                return self.env[e.id]
             self.fail(e, 'name %s is not bound to a literal earlier in the module' % e.id)
         if isinstance(e, (ast.Tuple, ast.List)):
             vals = tuple(self.expr(x) for x in e.elts)
